@@ -225,7 +225,16 @@ func c05Run(t *testing.T, c c05Case) (kind, what string) {
 			isReady := ready
 			ab := abort
 			mu.Unlock()
+			// "+CONTINUE <new run id>" (a master that changed its replication id): the tool may refuse
+			// the reply, but if it goes on it must go on with the announced id
+			announced := ""
+			if i := strings.Index(c.Status, " "); i > 0 && !full {
+				announced = c.Status[i+1:]
+			}
+			refused := announced != "" && gotErr != nil && ab == ""
 			switch {
+			case refused:
+				kind = "refused"
 			case ab != "":
 				bad("abort", "the tool aborts during the hand-off")
 			case !isReady || gotErr != nil:
@@ -234,6 +243,8 @@ func c05Run(t *testing.T, c c05Case) (kind, what string) {
 				bad("mode", fmt.Sprintf("reply %q understood as full sync=%v", c.Status, gotFull))
 			case full && (gotNsize != int64(c.N) || gotRunid != "0123456789abcdef0123456789abcdef01234567" || ds.sourceOffset != 4711):
 				bad("announced", fmt.Sprintf("announced run id/offset/size = 0123..4567/4711/%d, used %s/%d/%d", c.N, gotRunid, ds.sourceOffset, gotNsize))
+			case !full && announced != "" && gotRunid != announced:
+				bad("announced-runid", fmt.Sprintf("the source answered +%s, the tool goes on with run id %q", c.Status, gotRunid))
 			case !full && (ds.sourceOffset != 500 || m.Psyncs()[0].Offset != 501 || m.Psyncs()[0].RunID != "run-1"):
 				bad("announced", fmt.Sprintf("resume at offset 500: PSYNC %s %d sent, offset afterwards %d", m.Psyncs()[0].RunID, m.Psyncs()[0].Offset, ds.sourceOffset))
 			case !bytes.Equal(got, payload):
@@ -244,14 +255,16 @@ func c05Run(t *testing.T, c c05Case) (kind, what string) {
 				bad("bytes", fmt.Sprintf("the consumer saw %d bytes, the source sent %d after the header; first difference at byte %d (RDB size %d)", len(got), len(payload), i, c.N))
 			}
 			for _, a := range m.Acks() {
-				if a != 0 {
+				if a != 0 && !refused {
 					bad("ack-during-full", fmt.Sprintf("REPLCONF ACK %d while the RDB phase is not finished", a))
 				}
 			}
 			// the full phase ends: from now on the acknowledged offset is the announced offset plus
 			// every byte that followed the RDB (a byte of the command stream that was copied as
 			// part of the RDB would be missing here and re-sent after the next reconnect)
-			if kind == "" {
+			if refused {
+				kind = "" // a refusal is a legitimate answer: nothing more to judge
+			} else if kind == "" {
 				close(ds.WaitFull)
 				time.Sleep(1100 * time.Millisecond)
 				synctest.Wait()
@@ -370,7 +383,7 @@ func TestVerif_C05(t *testing.T) {
 		}
 	}
 	// 2. +CONTINUE replies
-	for _, st := range []string{"CONTINUE", "continue", "Continue"} {
+	for _, st := range []string{"CONTINUE", "continue", "Continue", "CONTINUE bbbbbbbbbbbbbbbbbbbbbbbbbbbbbbbbbbbbbbbb", "continue bbbbbbbbbbbbbbbbbbbbbbbbbbbbbbbbbbbbbbbb"} {
 		for _, nl1 := range []int{0, 2} {
 			base := c05Case{NL1: nl1, Status: st, Tail: 3, Bufio: 16, Consumer: "eager"}
 			stream, _, _, _ := c05Stream(base)
